@@ -199,6 +199,8 @@ def _worker(args):
                     cur = res["canaries"].get(name, "unsat")
                     if rec["result"] == "sat" or cur == "sat":
                         res["canaries"][name] = "sat"
+                    elif rec["result"] != "unsat":
+                        res["canaries"][name] = rec["result"]
                     else:
                         res["canaries"].setdefault(name, rec["result"])
                     continue
@@ -290,7 +292,7 @@ def _worker(args):
             if o["reached"] == 0 and not o.get("reach_unknown"):
                 raise RuntimeError(f"vacuous obligation {name} in case {case.name}: never reached with sat pc")
         for name, r in res["canaries"].items():
-            if r != "sat":
+            if r == "unsat":
                 raise RuntimeError(f"canary {name} in case {case.name} was not refuted ({r}): harness insensitive")
         if not res["obligations"] and not res["canaries"]:
             raise RuntimeError(f"case {case.name}: no obligation reached")
@@ -322,6 +324,77 @@ def _worker(args):
 def _init(modname):
     sys.path.insert(0, ROOT)
     importlib.import_module(modname)
+
+
+def _proc_main(modname, tasks, results):
+    _init(modname)
+    while True:
+        job = tasks.get()
+        if job is None:
+            return
+        results.put(("start", job[1], os.getpid(), time.time()))
+        results.put(("done", job[1], os.getpid(), _worker(job)))
+
+
+def _blank(name, **kw):
+    d = {"case": name, "error": None, "paths": 0, "queries": 0, "solver_s": 0.0, "obligations": {}, "violations": [], "known": [],
+         "unconfirmed": [], "validated": 0, "functions": [], "samples": [], "canaries": {}, "complete": False, "aborted": 0,
+         "branch_unknown": 0, "inconclusive": []}
+    d.update(kw)
+    return d
+
+
+def _run_pool(modname, jobs, cases, tier, nproc):
+    """Own process pool with a hard wall-clock limit per case: z3's nlsat occasionally ignores both its timeout and
+    interrupts, and a stuck case must not hang the check.  A killed case is reported as inconclusive."""
+    ctx = mp.get_context("spawn")
+    tasks, results = ctx.Queue(), ctx.Queue()
+    for j in jobs:
+        tasks.put(j)
+    procs = {}
+
+    def spawn():
+        p = ctx.Process(target=_proc_main, args=(modname, tasks, results), daemon=True)
+        p.start()
+        procs[p.pid] = p
+
+    for _ in range(nproc):
+        spawn()
+    out, running = {}, {}
+    default = 90 if tier == "quick" else 900
+    while len(out) < len(jobs):
+        try:
+            msg = results.get(timeout=1.0)
+        except Exception:
+            msg = None
+        if msg is not None:
+            if msg[0] == "start":
+                running[msg[2]] = (msg[1], msg[3])
+            else:
+                out[msg[1]] = msg[3]
+                running.pop(msg[2], None)
+        now = time.time()
+        for pid, (idx, st) in list(running.items()):
+            limit = (cases[idx].budget_s or default) * 1.5 + 120
+            if now - st > limit:
+                procs[pid].terminate()
+                procs.pop(pid, None)
+                running.pop(pid, None)
+                out[idx] = _blank(cases[idx].name, inconclusive=["hard wall-clock limit"], wall_s=now - st, hard_timeout=True)
+                spawn()
+        for pid, p in list(procs.items()):
+            if not p.is_alive() and pid in running:
+                idx, st = running.pop(pid)
+                out[idx] = _blank(cases[idx].name, error=f"worker died (exit {p.exitcode})", wall_s=now - st)
+                procs.pop(pid, None)
+                spawn()
+    for _ in procs:
+        tasks.put(None)
+    for p in procs.values():
+        p.join(timeout=2)
+        if p.is_alive():
+            p.terminate()
+    return [out[j[1]] for j in jobs]
 
 
 def _more(c, neg, last, tried):
@@ -375,12 +448,10 @@ def main(argv=None):
     # fresh (spawned) persistent workers: forking a parent that has abTEM loaded makes all children
     # contend on the parent's anon_vma lock (measured 8x slowdown at 16 jobs); patches are undone per case
     nproc = max(1, min(a.jobs, len(jobs)))
-    if nproc == 1:
+    if nproc == 1 and a.case is not None and os.environ.get("VERIF_INPROC"):
         results = [_worker(j) for j in jobs]
     else:
-        ctx = mp.get_context("spawn")
-        with ctx.Pool(processes=nproc, initializer=_init, initargs=(modname,)) as pool:
-            results = pool.map(_worker, jobs, chunksize=1)
+        results = _run_pool(modname, jobs, cases, a.tier, nproc)
     wall = time.time() - t0
     errors = [r for r in results if r["error"]]
     viol = [(r["case"], v) for r in results for v in r["violations"]]
@@ -439,7 +510,7 @@ def main(argv=None):
         with open(os.path.join(ROOT, "evidence", f"{pid}.json"), "w") as f:
             json.dump(ev, f, indent=1, default=str)
     for r in results:
-        tag = "ERROR" if r["error"] else ("INCOMPLETE" if not r["complete"] else "ok")
+        tag = "ERROR" if r["error"] else ("HARD-TIMEOUT(inconclusive)" if r.get("hard_timeout") else "INCOMPLETE" if not r["complete"] else "ok")
         print(f"  case {r['case']}: paths={r['paths']} queries={r['queries']} "
               f"obl={sum(o['instances'] for o in r['obligations'].values())} "
               f"unsat={sum(o['unsat'] for o in r['obligations'].values())} "
